@@ -236,21 +236,33 @@ func flattenStores(f *ssa.Function, root ssa.Value) []flatStore {
 			}
 		}
 	}
-	refs := root.Referrers()
-	if refs == nil {
+	if root.Referrers() == nil {
 		return nil
 	}
-	for _, ref := range *refs {
-		fa, ok := ref.(*ssa.FieldAddr)
-		if !ok || fa.X != root {
-			continue
+	var direct func(base ssa.Value, prefix string, depth int)
+	direct = func(base ssa.Value, prefix string, depth int) {
+		if depth > 4 || base.Referrers() == nil {
+			return
 		}
-		for _, r2 := range *fa.Referrers() {
-			if st, ok := r2.(*ssa.Store); ok && st.Addr == ssa.Value(fa) {
-				expand(fieldName(fa), st.Val, st, 0)
+		for _, ref := range *base.Referrers() {
+			fa, ok := ref.(*ssa.FieldAddr)
+			if !ok || fa.X != base {
+				continue
 			}
+			name := fieldName(fa)
+			if prefix != "" {
+				name = prefix + "." + name
+			}
+			for _, r2 := range *fa.Referrers() {
+				if st, ok := r2.(*ssa.Store); ok && st.Addr == ssa.Value(fa) {
+					expand(name, st.Val, st, 0)
+				}
+			}
+			// member that is itself a struct value: its fields are assigned through a nested FieldAddr
+			direct(fa, name, depth+1)
 		}
 	}
+	direct(root, "", 0)
 	return out
 }
 
